@@ -108,6 +108,20 @@ class Shape(ast.NodeTransformer):
             return ast.copy_location(ast.BoolOp(op=op, values=vals), n)
         return n
 
+    def visit_JoinedStr(self, n):
+        self.generic_visit(n)
+        # an f-string whose parts are all literal strings (left behind when a loop constant was written in) is that string
+        parts = []
+        for v in n.values:
+            if isinstance(v, ast.Constant) and isinstance(v.value, str):
+                parts.append(v.value)
+            elif isinstance(v, ast.FormattedValue) and isinstance(v.value, ast.Constant) and isinstance(v.value.value, str) and \
+                    v.conversion == -1 and v.format_spec is None:
+                parts.append(v.value.value)
+            else:
+                return n
+        return ast.copy_location(ast.Constant(value=''.join(parts)), n)
+
     def visit_Call(self, n):
         self.generic_visit(n)
         # getattr(x, 'name') with a literal identifier and no default is the attribute access x.name
@@ -474,14 +488,22 @@ def unroll_constant_loops(tree):
         return isinstance(x, ast.Tuple) and len(x.elts) > 1 and all(_reference_expr(y) for y in x.elts) and \
             not all(isinstance(y, ast.Constant) for y in x.elts)
 
-    def quiet_body(body, tv):
-        # the body cannot change what the references evaluate to: tests, and stores into a subscript of a plain local
+    def quiet_body(body, tv, rows=()):
+        # the body cannot change what the references of the rows evaluate to: tests, effect-free calls, stores into a subscript of a
+        # plain local, and stores into attributes (also setattr with the loop constant as name) that no row reads
+        read_attrs = {y.attr for r in rows for y in ast.walk(r) if isinstance(y, ast.Attribute)}
+        row_names = {c.value for r in rows for c in (r.elts if isinstance(r, ast.Tuple) else [r]) if isinstance(c, ast.Constant) and isinstance(c.value, str)}
         for b in body:
             for x in ast.walk(b):
-                if isinstance(x, ast.Call) and not effect_free(x):
+                if isinstance(x, ast.Call) and isinstance(x.func, ast.Name) and x.func.id == 'setattr' and len(x.args) == 3 and \
+                        isinstance(x.args[1], ast.Name) and x.args[1].id in tv and not (row_names & read_attrs):
+                    continue
+                if isinstance(x, ast.Call) and not effect_free(ast.Call(func=x.func, args=[], keywords=[])):
                     return False
                 if isinstance(x, (ast.Attribute,)) and isinstance(x.ctx, (ast.Store, ast.Del)):
-                    return False
+                    if x.attr in read_attrs:
+                        return False
+                    continue
                 if isinstance(x, ast.Name) and isinstance(x.ctx, (ast.Store, ast.Del)):
                     return False
                 if isinstance(x, ast.Subscript) and isinstance(x.ctx, (ast.Store, ast.Del)) and not isinstance(x.value, ast.Name):
@@ -523,7 +545,7 @@ def unroll_constant_loops(tree):
                     tv = [st.target.id] if isinstance(st.target, ast.Name) else \
                         ([e.id for e in st.target.elts] if isinstance(st.target, ast.Tuple) and all(isinstance(e, ast.Name) for e in st.target.elts) else None)
                     if isinstance(it, (ast.Tuple, ast.List)) and 0 < len(it.elts) <= 16 and tv is not None and \
-                            (all(const_elt(x) for x in it.elts) or (all(ref_elt(x) or const_elt(x) for x in it.elts) and quiet_body(st.body, tv))) and \
+                            (all(const_elt(x) for x in it.elts) or (all(ref_elt(x) or const_elt(x) for x in it.elts) and quiet_body(st.body, tv, it.elts))) and \
                             not any(isinstance(x, (ast.Break, ast.Continue, ast.FunctionDef, ast.Lambda)) for b in st.body for x in ast.walk(b)) and \
                             not any(isinstance(x, ast.Name) and x.id in tv and isinstance(x.ctx, (ast.Store, ast.Del)) for b in st.body for x in ast.walk(b)) and \
                             sum(1 for x in ast.walk(fn) if isinstance(x, ast.Name) and x.id in tv) == \
